@@ -3,9 +3,11 @@ import NfcVerif.Py
 # Model of `ContactlessFrontend.sense / listen / exchange` (src/nfc/clf/__init__.py)
 
 The frontend talks to a *scripted world*: every interaction with the device
-driver (and, in `Model/Connect.lean`, with `nfc.tag.activate`, `nfc.tag.emulate`,
-`llc.activate`, `llc.run`) consumes one answer `Ans` of an environment script and
-appends one event to a log.  The index of the consumed answer is the identity of
+driver (and, in `Model/Connect.lean`, with `llc.activate`, `llc.run`) consumes one
+answer `Ans` of an environment script and appends one event to a log.
+`nfc.tag.activate` and `nfc.tag.emulate` are modelled themselves (`Model/Connect.lean`):
+their call is an event (`act` / `emu`, consuming nothing), the commands they send are
+`exchange` / `sense` calls of this file.  The index of the consumed answer is the identity of
 the object the answer creates (target, tag), so "which target" is observable.
 
 State `St`: remaining script, number of answers consumed, the event log and
@@ -14,12 +16,19 @@ State `St`: remaining script, number of answers consumed, the event log and
 namespace NfcVerif.Clf
 
 /-- a discovery answer: `sens_res`, `rid_res` (empty = None), peer-to-peer capability
-(SEL_RES bit 6 / NFCID2 prefix 01FE), length of the ATR_REQ seen by `listen_dep` -/
+(SEL_RES bit 6 / NFCID2 prefix 01FE), length of the ATR_REQ seen by `listen_dep`;
+`var`: platform variant of a Type A answer (bit 0: SEL_RES bit 5 = ISO-DEP / Type 4A,
+bit 1: first SDD_RES byte 08h instead of the NXP manufacturer code 04h);
+`tech`: the technology that produced the target (0 as scripted; stamped by `drvSense`:
+1 `sense_tta`, 2 `sense_ttb`, 3 `sense_ttf`, 4 `sense_dep`).
+As the answer of an `exchange()` the field `sens` is the response data. -/
 structure Found where
   sens : Bytes
   rid : Bytes
   p2p : Bool
   atrLen : Nat
+  var : Nat := 0
+  tech : Nat := 0
   deriving DecidableEq, Repr, Inhabited
 
 /-- one answer of the scripted world -/
@@ -28,6 +37,8 @@ inductive Ans
   | found (f : Found)       -- target found / tag activated / present / link up
   | commErr                 -- nfc.clf.TimeoutError (a CommunicationError)
   | brokenLink              -- nfc.clf.BrokenLinkError
+  | transErr                -- nfc.clf.TransmissionError (sense_* and exchange; elsewhere like `nothing`)
+  | protoErr                -- nfc.clf.ProtocolError (sense_* and exchange; elsewhere like `nothing`)
   | unsupported             -- nfc.clf.UnsupportedTargetError
   | ioError                 -- IOError(EIO)
   | kbd                     -- KeyboardInterrupt
@@ -43,7 +54,8 @@ inductive Site
   | ledOn | ledOff
   | cmdRsp (id : Nat)       -- device.send_cmd_recv_rsp(target id)
   | rspCmd (id : Nat)       -- device.send_rsp_recv_cmd(target id)
-  | activate | emulate | llcActivate (initiator : Bool) | llcRun
+  | activate | emulate      -- the calls nfc.tag.activate / nfc.tag.emulate (events only, no answer consumed)
+  | llcActivate (initiator : Bool) | llcRun
   deriving DecidableEq, Repr, Inhabited
 
 inductive Role | rdwr | llcp | card
@@ -93,14 +105,21 @@ def simpleCall (site : Site) (s : St) : R Unit :=
   | some e => (.error e, s1)
   | none => (.ok (), s1)
 
+/-- the technology stamp of a `sense_*` site -/
+def Site.tech : Site → Nat
+  | .senseA => 1 | .senseB => 2 | .senseF => 3 | .senseDep => 4 | _ => 0
+
 /-- `device.sense_*`: id and data of the target found (a Type B target never shows
 peer-to-peer capability) -/
 def drvSense (site : Site) (s : St) : R (Option (Nat × Found)) :=
   let (a, s1) := s.ask site
   match a with
-  | .found f => (.ok (some (s.n, if site = .senseB then { f with p2p := false } else f)), s1)
+  | .found f => (.ok (some (s.n, if site = .senseB then { f with p2p := false, tech := site.tech }
+                                 else { f with tech := site.tech })), s1)
   | .commErr => (.error .timeout, s1)
   | .brokenLink => (.error .brokenLink, s1)
+  | .transErr => (.error .transmission, s1)
+  | .protoErr => (.error .protocol, s1)
   | .unsupported => (.error .unsupportedTarget, s1)
   | .ioError => (.error (.io 5), s1)
   | .kbd => (.error .keyboardInterrupt, s1)
@@ -222,27 +241,29 @@ def listen (t : LtSpec) (s : St) : R (Option (Nat × Found)) :=
        | (.ok (some (id, f)), s2) => (.ok (some (id, f)), { s2 with target := .loc id })
        | r => r)
 
+/-- what the device does with an exchange answer: data, or one of the CommunicationError
+classes (anything that is not data or another error is a timeout) -/
+def xchgAnswer (a : Ans) (s1 : St) : R (Option Bytes) :=
+  match a with
+  | .found f => (.ok (some f.sens), s1)
+  | .ioError => (.error (.io 5), s1)
+  | .kbd => (.error .keyboardInterrupt, s1)
+  | .brokenLink => (.error .brokenLink, s1)
+  | .transErr => (.error .transmission, s1)
+  | .protoErr => (.error .protocol, s1)
+  | _ => (.error .timeout, s1)
+
 /-- `ContactlessFrontend.exchange`: `none` = returned None (no target, no driver call);
-`some true` = data came back -/
-def exchange (s : St) : R (Option Bool) :=
+`some d` = the data `d` came back -/
+def exchange (s : St) : R (Option Bytes) :=
   match s.target with
   | .none => (.ok none, s)
   | .remote id =>
     let (a, s1) := s.ask (.cmdRsp id)
-    (match a with
-     | .found _ => (.ok (some true), s1)
-     | .ioError => (.error (.io 5), s1)
-     | .kbd => (.error .keyboardInterrupt, s1)
-     | .brokenLink => (.error .brokenLink, s1)
-     | _ => (.error .timeout, s1))
+    xchgAnswer a s1
   | .loc id =>
     let (a, s1) := s.ask (.rspCmd id)
-    (match a with
-     | .found _ => (.ok (some true), s1)
-     | .ioError => (.error (.io 5), s1)
-     | .kbd => (.error .keyboardInterrupt, s1)
-     | .brokenLink => (.error .brokenLink, s1)
-     | _ => (.error .timeout, s1))
+    xchgAnswer a s1
 
 /-- a history of frontend calls (for `exchange_no_stale_target`) -/
 inductive Op
